@@ -325,18 +325,23 @@ Qed.
 
 (** * Reachable states: every history of operations *)
 
-Inductive reachable : state -> Prop :=
-| r_init : reachable state_empty
-| r_create s id key fk roles : reachable s -> reachable (snd (create_user s id key fk roles))
-| r_revoke_key s id : reachable s -> reachable (snd (revoke_key s id))
-| r_grant s id t p : reachable s -> reachable (snd (grant_permission s id t p))
-| r_revoke_perm s id t : reachable s -> reachable (snd (revoke_permission s id t))
-| r_session s tok uid now e : reachable s -> reachable (new_session s tok uid now e)
-| r_revoke_token s tok : reachable s -> reachable (snd (revoke_token s tok))
-| r_revoke_sessions s uid : reachable s -> reachable (snd (revoke_user_sessions s uid))
-| r_dispatch s who c k : reachable s -> reachable (snd (dispatch s who c k))
-| r_gate hmac cfg s conn line now tok : reachable s -> reachable (snd (gate_tcp hmac cfg s conn line now tok))
-| r_restart s : reachable s -> reachable (restart s).
+Inductive step : state -> state -> Prop :=
+| st_create s id key fk roles : step s (snd (create_user s id key fk roles))
+| st_revoke_key s id : step s (snd (revoke_key s id))
+| st_grant s id t p : step s (snd (grant_permission s id t p))
+| st_revoke_perm s id t : step s (snd (revoke_permission s id t))
+| st_session s tok uid now e : step s (new_session s tok uid now e)
+| st_revoke_token s tok : step s (snd (revoke_token s tok))
+| st_revoke_sessions s uid : step s (snd (revoke_user_sessions s uid))
+| st_dispatch s who c k : step s (snd (dispatch s who c k))
+| st_gate hmac cfg s conn line now tok : step s (snd (gate_tcp hmac cfg s conn line now tok))
+| st_restart s : step s (restart s).
+
+Inductive reachable_from (s0 : state) : state -> Prop :=
+| rf_refl : reachable_from s0 s0
+| rf_step s s' : reachable_from s0 s -> step s s' -> reachable_from s0 s'.
+
+Definition reachable : state -> Prop := reachable_from state_empty.
 
 Lemma gate_tcp_users : forall hmac cfg s conn line now tok,
   let s' := snd (gate_tcp hmac cfg s conn line now tok) in
@@ -351,10 +356,9 @@ Proof.
   end; cbn [snd]; split; reflexivity.
 Qed.
 
-Lemma reachable_wf : forall s, reachable s -> wf s.
+Lemma step_wf : forall s s', step s s' -> wf s -> wf s'.
 Proof.
-  induction 1.
-  - apply wf_empty.
+  intros s s' H W. destruct H.
   - apply create_user_wf; assumption.
   - apply revoke_key_wf; assumption.
   - apply grant_permission_wf; assumption.
@@ -367,6 +371,12 @@ Proof.
     eapply wf_same_users; eassumption.
   - apply restart_wf; assumption.
 Qed.
+
+Lemma reachable_from_wf : forall s0 s, reachable_from s0 s -> wf s0 -> wf s.
+Proof. induction 1; intro W; [exact W|]. eapply step_wf; eauto. Qed.
+
+Lemma reachable_wf : forall s, reachable s -> wf s.
+Proof. intros s H. eapply reachable_from_wf; [exact H|apply wf_empty]. Qed.
 
 (** * can_read / can_write against a declarative RBAC statement *)
 
@@ -550,3 +560,353 @@ Corollary may_write_weak : forall us uid t, may_write us uid t ->
     ((exists p, alookup t (u_perms u) = Some p /\ p_write p = true)
      \/ has_role u "admin" \/ has_role u "editor" \/ has_role u "write-only").
 Proof. intros us uid t [u [E H]]. exists u. split; [exact E|]. tauto. Qed.
+
+(** * The gates *)
+
+Lemma split_byte_spec : forall c s a b, split_byte c s = Some (a, b) -> s = a ++ c :: b /\ ~ In c a.
+Proof.
+  intros c. induction s as [|x r IH]; intros a b H; cbn [split_byte] in H; [discriminate|].
+  destruct (x =? c) eqn:E.
+  - inversion H; subst. apply N.eqb_eq in E. subst. split; [reflexivity|intros []].
+  - destruct (split_byte c r) as [[a' b']|]; [|discriminate]. inversion H; subst.
+    destruct (IH a' b eq_refl) as [-> N]. split; [reflexivity|].
+    intros [C|C]; [apply N.eqb_neq in E; congruence|contradiction].
+Qed.
+
+Lemma is_prefix_spec : forall p s, is_prefix p s = true -> s = p ++ skipn (List.length p) s.
+Proof.
+  induction p as [|x p IH]; intros [|y s] H; cbn [is_prefix] in H; try discriminate; try reflexivity.
+  apply andb_true_iff in H as [H1 H2]. apply N.eqb_eq in H1. subst y.
+  cbn [List.length skipn app]. f_equal. apply IH. exact H2.
+Qed.
+
+Lemma rsplit_sub_spec : forall pat s a b, rsplit_sub pat s = Some (a, b) -> s = a ++ pat ++ b.
+Proof.
+  intros pat. induction s as [|x r IH]; intros a b H; cbn [rsplit_sub] in H; [discriminate|].
+  destruct (rsplit_sub pat r) as [[a' b']|].
+  - inversion H; subst. cbn [app]. f_equal. apply IH. reflexivity.
+  - destruct (is_prefix pat (x :: r)) eqn:P; [|discriminate]. inversion H; subst.
+    cbn [app]. apply is_prefix_spec. exact P.
+Qed.
+
+Lemma parse_auth_spec : forall s uid sig c, parse_auth s = Some (uid, sig, c) ->
+  s = uid ++ colon :: sig ++ colon :: c /\ uid <> [] /\ ~ In colon uid /\ ~ In colon sig.
+Proof.
+  intros s uid sig c H. unfold parse_auth in H.
+  destruct (split_byte colon s) as [[u rest]|] eqn:S1; [|discriminate].
+  destruct (split_byte colon rest) as [[g cm]|] eqn:S2; [|discriminate].
+  destruct (is_nil u || (auth_max_user_id_len <? blen u)) eqn:E1; [discriminate|].
+  destruct (auth_max_sig_len <? blen g); [discriminate|]. inversion H; subst.
+  apply split_byte_spec in S1 as [-> N1]. apply split_byte_spec in S2 as [-> N2].
+  repeat split; try assumption. intro C. subst. cbn in E1. discriminate.
+Qed.
+
+Lemma validate_token_sound : forall s tok now uid, validate_token s tok now = Some uid ->
+  exists exp u, alookup tok (st_sessions s) = Some (uid, exp) /\ now <= exp /\
+                alookup uid (st_users s) = Some u /\ u_active u = true.
+Proof.
+  intros s tok now uid H. unfold validate_token in H.
+  destruct (alookup tok (st_sessions s)) as [[u0 exp]|] eqn:L; [|discriminate].
+  destruct (exp <? now) eqn:E; [discriminate|].
+  destruct (alookup u0 (st_users s)) as [u|] eqn:LU; [|discriminate].
+  destruct (u_active u) eqn:A; [|discriminate]. inversion H; subst.
+  exists exp, u. repeat split; try assumption. apply N.ltb_ge in E. exact E.
+Qed.
+
+Section GateProofs.
+  Variable hmac : bytes -> bytes -> bytes.
+
+  Lemma verify_signature_sound : forall s msg uid sig,
+    verify_signature hmac s msg uid sig = true ->
+    exists u, alookup uid (st_users s) = Some u /\ u_active u = true /\ sig = hmac (u_key u) msg.
+  Proof.
+    intros s msg uid sig H. unfold verify_signature in H.
+    destruct (auth_max_sig_len <? blen sig); [discriminate|].
+    destruct (auth_max_user_id_len <? blen uid); [discriminate|].
+    destruct (alookup uid (st_users s)) as [u|]; [|discriminate].
+    apply andb_true_iff in H as [H1 H2]. beq. exists u. auto.
+  Qed.
+
+  (** the converse, for signatures and ids within the length limits *)
+  Lemma verify_signature_complete : forall s msg uid u,
+    alookup uid (st_users s) = Some u -> u_active u = true ->
+    blen (hmac (u_key u) msg) <= auth_max_sig_len -> blen uid <= auth_max_user_id_len ->
+    verify_signature hmac s msg uid (hmac (u_key u) msg) = true.
+  Proof.
+    intros s msg uid u L A B1 B2. unfold verify_signature.
+    apply N.ltb_ge in B1. apply N.ltb_ge in B2. rewrite B1, B2, L, A, bytes_eqb_refl. reflexivity.
+  Qed.
+
+  (** What a line must carry for the gate to hand a command on as user [uid]. *)
+  Inductive credential (s : state) (conn : option bytes) (now : N) (line text uid : bytes) : Prop :=
+  | cred_inline u sig :
+      alookup uid (st_users s) = Some u -> u_active u = true ->
+      trim line = uid ++ colon :: sig ++ colon :: text ->
+      sig = hmac (u_key u) text ->
+      credential s conn now line text uid
+  | cred_connection u sig rest :
+      conn = Some uid ->
+      alookup uid (st_users s) = Some u -> u_active u = true ->
+      trim line = sig ++ colon :: rest -> text = trim rest ->
+      sig = hmac (u_key u) text ->
+      credential s conn now line text uid
+  | cred_token u before after exp :
+      trim line = before ++ token_marker ++ after -> text = trim before ->
+      alookup (trim after) (st_sessions s) = Some (uid, exp) -> now <= exp ->
+      alookup uid (st_users s) = Some u -> u_active u = true ->
+      credential s conn now line text uid.
+
+  Definition auth_on (cfg : gate_cfg) : Prop := g_bypass cfg = false /\ g_has_mgr cfg = true.
+
+  Theorem gate_sound : forall cfg s conn line now tok text uid conn' s',
+    auth_on cfg ->
+    gate_tcp hmac cfg s conn line now tok = (GDispatch text uid, conn', s') ->
+    credential s conn now line text uid /\ conn' = conn /\ s' = s.
+  Proof.
+    intros cfg s conn line now tok text uid conn' s' [B M] H. unfold gate_tcp in H. rewrite B, M in H.
+    cbn [negb andb] in H.
+    destruct ((5 <=? blen (trim line)) && eq_ignore_case (firstn 5 (trim line)) auth_word).
+    { destruct (split_byte colon (trim (skipn 5 (trim line)))) as [[u g]|]; [|discriminate].
+      destruct (verify_signature hmac s u u g); discriminate. }
+    destruct (rsplit_sub token_marker (trim line)) as [[before after]|] eqn:R.
+    - destruct (negb (is_nil (trim after)) && (blen (trim after) <=? auth_token_max_len)) eqn:TL.
+      + destruct (validate_token s (trim after) now) as [u0|] eqn:V.
+        * inversion H; subst. apply validate_token_sound in V as (exp & u & V1 & V2 & V3 & V4).
+          apply rsplit_sub_spec in R. repeat split. eapply cred_token; eauto.
+        * destruct conn as [cu|].
+          -- destruct (split_byte colon (trim line)) as [[g rest]|] eqn:S1; [|discriminate].
+             destruct (verify_signature hmac s (trim rest) cu g) eqn:VS; [|discriminate].
+             inversion H; subst. apply verify_signature_sound in VS as (u & L & A & E).
+             apply split_byte_spec in S1 as [S1 _]. repeat split. eapply cred_connection; eauto.
+          -- destruct (parse_auth (trim line)) as [[[u g] c]|] eqn:PA; [|discriminate].
+             destruct (verify_signature hmac s c u g) eqn:VS; [|discriminate].
+             inversion H; subst. apply verify_signature_sound in VS as (u0 & L & A & E).
+             apply parse_auth_spec in PA as (PA & _). repeat split. eapply cred_inline; eauto.
+      + destruct conn as [cu|].
+        * destruct (split_byte colon (trim line)) as [[g rest]|] eqn:S1; [|discriminate].
+          destruct (verify_signature hmac s (trim rest) cu g) eqn:VS; [|discriminate].
+          inversion H; subst. apply verify_signature_sound in VS as (u & L & A & E).
+          apply split_byte_spec in S1 as [S1 _]. repeat split. eapply cred_connection; eauto.
+        * destruct (parse_auth (trim line)) as [[[u g] c]|] eqn:PA; [|discriminate].
+          destruct (verify_signature hmac s c u g) eqn:VS; [|discriminate].
+          inversion H; subst. apply verify_signature_sound in VS as (u0 & L & A & E).
+          apply parse_auth_spec in PA as (PA & _). repeat split. eapply cred_inline; eauto.
+    - destruct conn as [cu|].
+      + destruct (split_byte colon (trim line)) as [[g rest]|] eqn:S1; [|discriminate].
+        destruct (verify_signature hmac s (trim rest) cu g) eqn:VS; [|discriminate].
+        inversion H; subst. apply verify_signature_sound in VS as (u & L & A & E).
+        apply split_byte_spec in S1 as [S1 _]. repeat split. eapply cred_connection; eauto.
+      + destruct (parse_auth (trim line)) as [[[u g] c]|] eqn:PA; [|discriminate].
+        destruct (verify_signature hmac s c u g) eqn:VS; [|discriminate].
+        inversion H; subst. apply verify_signature_sound in VS as (u0 & L & A & E).
+        apply parse_auth_spec in PA as (PA & _). repeat split. eapply cred_inline; eauto.
+  Qed.
+End GateProofs.
+
+Section GateProofs2.
+  Variable hmac : bytes -> bytes -> bytes.
+
+  (** AUTH is accepted only for [hmac key user_id] of an active user *)
+  Theorem auth_sound : forall cfg s conn line now tok uid conn' s',
+    auth_on cfg ->
+    gate_tcp hmac cfg s conn line now tok = (GAuthOk uid, conn', s') ->
+    exists u sig,
+      alookup uid (st_users s) = Some u /\ u_active u = true /\
+      eq_ignore_case (firstn 5 (trim line)) auth_word = true /\
+      trim (skipn 5 (trim line)) = uid ++ colon :: sig /\ sig = hmac (u_key u) uid /\
+      conn' = Some uid /\ s' = new_session s tok uid now (g_expiry cfg).
+  Proof.
+    intros cfg s conn line now tok uid conn' s' [B M] H. unfold gate_tcp in H. rewrite B, M in H.
+    cbn [negb andb] in H.
+    destruct ((5 <=? blen (trim line)) && eq_ignore_case (firstn 5 (trim line)) auth_word) eqn:A.
+    - apply andb_true_iff in A as [_ A].
+      destruct (split_byte colon (trim (skipn 5 (trim line)))) as [[u g]|] eqn:S1; [|discriminate].
+      destruct (verify_signature hmac s u u g) eqn:VS; [|discriminate].
+      inversion H; subst. apply verify_signature_sound in VS as (u0 & L & Ac & E).
+      apply split_byte_spec in S1 as [S1 _]. exists u0, g. repeat split; assumption.
+    - exfalso.
+      destruct (rsplit_sub token_marker (trim line)) as [[before after]|];
+        [destruct (negb (is_nil (trim after)) && (blen (trim after) <=? auth_token_max_len));
+         [destruct (validate_token s (trim after) now); [discriminate|]|]|];
+        (destruct conn as [cu|];
+         [destruct (split_byte colon (trim line)) as [[g rest]|]; [|discriminate];
+          destruct (verify_signature hmac s (trim rest) cu g); discriminate
+         |destruct (parse_auth (trim line)) as [[[u g] c]|]; [|discriminate];
+          destruct (verify_signature hmac s c u g); discriminate]).
+  Qed.
+
+  (** the UNIX-socket gate: inline credentials only *)
+  Theorem gate_unix_sound : forall cfg s line text uid,
+    auth_on cfg -> gate_unix hmac cfg s line = GDispatch text uid ->
+    credential hmac s None 0 line text uid.
+  Proof.
+    intros cfg s line text uid [B M] H. unfold gate_unix in H. rewrite B, M in H. cbn [negb] in H.
+    destruct (parse_auth (trim line)) as [[[u g] c]|] eqn:PA; [|discriminate].
+    destruct (verify_signature hmac s c u g) eqn:VS; [|discriminate].
+    inversion H; subst. apply verify_signature_sound in VS as (u0 & L & A & E).
+    apply parse_auth_spec in PA as (PA & _). eapply cred_inline; eauto.
+  Qed.
+
+  (** the HTTP /command gate: a header signature over the trimmed body, or inline credentials *)
+  Theorem gate_http_sound : forall cfg s hdr body text uid,
+    auth_on cfg -> gate_http hmac cfg s hdr body = GDispatch text uid ->
+    (exists u sig, hdr = Some (uid, sig) /\ text = trim body /\
+        alookup uid (st_users s) = Some u /\ u_active u = true /\ sig = hmac (u_key u) (trim body))
+    \/ (hdr = None /\ credential hmac s None 0 body text uid).
+  Proof.
+    intros cfg s hdr body text uid [B M] H. unfold gate_http in H. rewrite B, M in H. cbn [negb] in H.
+    destruct hdr as [[hu hs]|].
+    - destruct (verify_signature hmac s (trim body) hu hs) eqn:VS; [|discriminate].
+      inversion H; subst. apply verify_signature_sound in VS as (u0 & L & A & E).
+      left. exists u0, hs. repeat split; assumption.
+    - destruct (parse_auth (trim body)) as [[[u g] c]|] eqn:PA; [|discriminate].
+      destruct (verify_signature hmac s c u g) eqn:VS; [|discriminate].
+      inversion H; subst. apply verify_signature_sound in VS as (u0 & L & A & E).
+      apply parse_auth_spec in PA as (PA & _). right. split; [reflexivity|]. eapply cred_inline; eauto.
+  Qed.
+
+  (** * Revocation *)
+
+  Definition inactive (s : state) (id : bytes) : Prop :=
+    exists u, alookup id (st_users s) = Some u /\ u_active u = false.
+
+  Lemma credential_active : forall s conn now line text uid,
+    credential hmac s conn now line text uid ->
+    exists u, alookup uid (st_users s) = Some u /\ u_active u = true.
+  Proof. intros s conn now line text uid H. destruct H; eauto. Qed.
+
+  (** no line is dispatched, and no AUTH accepted, for a user whose record is inactive *)
+  Lemma inactive_rejected : forall cfg s id conn line now tok,
+    auth_on cfg -> inactive s id ->
+    match fst (fst (gate_tcp hmac cfg s conn line now tok)) with
+    | GDispatch _ u => u <> id
+    | GAuthOk u => u <> id
+    | GReject => True
+    end.
+  Proof.
+    intros cfg s id conn line now tok On [u [L A]].
+    destruct (gate_tcp hmac cfg s conn line now tok) as [[r c'] s''] eqn:G. cbn [fst].
+    destruct r as [|au|text du]; [exact I| |].
+    - apply auth_sound in G as (u0 & sig & L0 & A0 & _); [|exact On]. intro E. subst. congruence.
+    - apply gate_sound in G as (C & _); [|exact On]. apply credential_active in C as (u0 & L0 & A0).
+      intro E. subst. congruence.
+  Qed.
+End GateProofs2.
+
+Lemma revoke_key_inactive : forall s id s', revoke_key s id = (None, s') -> inactive s' id.
+Proof.
+  intros s id s' H. unfold revoke_key in H. destruct (alookup id (st_users s)) as [u|]; [|discriminate].
+  inversion H; subst. eexists. split.
+  - cbn [set_sessions st_users put_user set_users_cache u_id]. apply alookup_ainsert_same.
+  - reflexivity.
+Qed.
+
+Lemma put_user_inactive : forall s u id,
+  inactive s id -> (u_id u = id -> u_active u = false) -> inactive (put_user s u) id.
+Proof.
+  intros s u id [v [L A]] H. unfold inactive, put_user, set_users_cache. cbn [st_users].
+  destruct (bytes_eqb id (u_id u)) eqn:E.
+  - beq. subst id. rewrite alookup_ainsert_same. eexists. split; [reflexivity|]. apply H. reflexivity.
+  - beq. rewrite alookup_ainsert_other by exact E. eauto.
+Qed.
+
+Lemma same_users_inactive : forall s s' id, st_users s' = st_users s -> inactive s id -> inactive s' id.
+Proof. intros s s' id E [u H]. exists u. rewrite E. exact H. Qed.
+
+Lemma create_user_inactive : forall s id0 key fk roles id,
+  inactive s id -> inactive (snd (create_user s id0 key fk roles)) id.
+Proof.
+  intros s id0 key fk roles id I. unfold create_user.
+  destruct (validate_user_id id0); [exact I|].
+  destruct (match key with Some k => _ | None => false end); [exact I|].
+  destruct (alookup id0 (st_users s)) eqn:L; [exact I|]. cbn [snd].
+  apply put_user_inactive; [exact I|]. cbn [u_id]. intro E. subst. destruct I as [u [L' _]]. congruence.
+Qed.
+
+Lemma revoke_key_keeps_inactive : forall s id0 id, inactive s id -> inactive (snd (revoke_key s id0)) id.
+Proof.
+  intros s id0 id I. unfold revoke_key. destruct (alookup id0 (st_users s)) as [u|]; [|exact I]. cbn [snd].
+  eapply same_users_inactive; [reflexivity|]. apply put_user_inactive; [exact I|]. reflexivity.
+Qed.
+
+Lemma grant_permission_inactive : forall s id0 t p id,
+  inactive s id -> inactive (snd (grant_permission s id0 t p)) id.
+Proof.
+  intros s id0 t p id I. unfold grant_permission. destruct (alookup id0 (st_users s)) as [u|] eqn:L; [|exact I].
+  cbn [snd]. apply put_user_inactive; [exact I|]. cbn [u_id u_active]. intro E. subst.
+  destruct I as [v [L' A]]. congruence.
+Qed.
+
+Lemma revoke_permission_inactive : forall s id0 t id,
+  inactive s id -> inactive (snd (revoke_permission s id0 t)) id.
+Proof.
+  intros s id0 t id I. unfold revoke_permission. destruct (alookup id0 (st_users s)) as [u|] eqn:L; [|exact I].
+  cbn [snd]. apply put_user_inactive; [exact I|]. cbn [u_id u_active]. intro E. subst.
+  destruct I as [v [L' A]]. congruence.
+Qed.
+
+Lemma grant_loop_inactive : forall ts s r w id0 id, inactive s id -> inactive (snd (grant_loop s r w ts id0)) id.
+Proof.
+  induction ts as [|t ts IH]; intros s r w id0 id I; cbn [grant_loop]; [exact I|].
+  destruct (negb (smem t (st_schemas s))); [exact I|].
+  destruct (grant_permission s id0 t _) as [[e|] s'] eqn:G; [exact I|].
+  apply IH. change s' with (snd (@None auth_err, s')). rewrite <- G. apply grant_permission_inactive. exact I.
+Qed.
+
+Lemma revoke_loop_inactive : forall ts s r w id0 id, inactive s id -> inactive (snd (revoke_loop s r w ts id0)) id.
+Proof.
+  induction ts as [|t ts IH]; intros s r w id0 id I; cbn [revoke_loop]; [exact I|].
+  destruct (grant_permission s id0 t _) as [[e|] s'] eqn:G; [exact I|].
+  apply IH. change s' with (snd (@None auth_err, s')). rewrite <- G. apply grant_permission_inactive. exact I.
+Qed.
+
+Lemma dispatch_inactive : forall s who c k id, inactive s id -> inactive (snd (dispatch s who c k)) id.
+Proof.
+  intros s who c k id I. destruct c; cbn [dispatch];
+    repeat match goal with
+    | |- inactive (snd (if ?b then _ else _)) _ => destruct b
+    | |- inactive (snd (match ?x with Some _ => _ | None => _ end)) _ => destruct x
+    | |- inactive (snd (_, s)) _ => exact I
+    end; try exact I;
+    try (eapply same_users_inactive; [|exact I]; reflexivity).
+  - destruct (create_user s id0 key k _) as [[e|] s'] eqn:C; [exact I|].
+    change s' with (snd (@None auth_err, s')). rewrite <- C. apply create_user_inactive. exact I.
+  - destruct (revoke_key s id0) as [[e|] s'] eqn:C; [exact I|].
+    change s' with (snd (@None auth_err, s')). rewrite <- C. apply revoke_key_keeps_inactive. exact I.
+  - apply grant_loop_inactive. exact I.
+  - apply revoke_loop_inactive. exact I.
+Qed.
+
+Lemma step_inactive : forall s s' id, step s s' -> inactive s id -> inactive s' id.
+Proof.
+  intros s s' id H I. destruct H.
+  - apply create_user_inactive; exact I.
+  - apply revoke_key_keeps_inactive; exact I.
+  - apply grant_permission_inactive; exact I.
+  - apply revoke_permission_inactive; exact I.
+  - eapply same_users_inactive; [|exact I]; reflexivity.
+  - eapply same_users_inactive; [|exact I]; reflexivity.
+  - eapply same_users_inactive; [|exact I]; reflexivity.
+  - apply dispatch_inactive; exact I.
+  - pose proof (gate_tcp_users hmac cfg s conn line now tok) as [E1 _]. cbn zeta in E1.
+    eapply same_users_inactive; eassumption.
+  - eapply same_users_inactive; [|exact I]; reflexivity.
+Qed.
+
+Lemma reachable_from_inactive : forall s0 s id, reachable_from s0 s -> inactive s0 id -> inactive s id.
+Proof. induction 1; intro I; [exact I|]. eapply step_inactive; eauto. Qed.
+
+(** Revoking a key takes effect for the next request — and for every later one, whatever
+    happens in between (restart included): nothing is dispatched or AUTH-accepted for the user,
+    neither by signature nor by a token issued earlier. *)
+Theorem revoke_key_next : forall hmac s id s1 s2 cfg conn line now tok,
+  revoke_key s id = (None, s1) -> reachable_from s1 s2 -> auth_on cfg ->
+  match fst (fst (gate_tcp hmac cfg s2 conn line now tok)) with
+  | GDispatch _ u => u <> id
+  | GAuthOk u => u <> id
+  | GReject => True
+  end.
+Proof.
+  intros hmac s id s1 s2 cfg conn line now tok R F On. apply inactive_rejected; [exact On|].
+  eapply reachable_from_inactive; [exact F|]. eapply revoke_key_inactive. exact R.
+Qed.
